@@ -13,6 +13,7 @@ import (
 	"go/constant"
 	"go/token"
 	"go/types"
+	"reflect"
 	"sort"
 	"strings"
 
@@ -452,6 +453,9 @@ func (e *Engine) load(st *State, loc string, t types.Type) AV {
 		}
 		return v
 	}
+	if isAggregate(t) && hasChildren(st, loc) {
+		return AV{Kind: KAgg, Loc: loc} // an element / field whose own parts are known
+	}
 	// nearest ancestor
 	anc := loc
 	for {
@@ -537,10 +541,17 @@ func (e *Engine) store(st *State, loc string, v AV, in ssa.Instruction) {
 // havocAll forgets everything known about non-local memory.
 func (e *Engine) havocAll(st *State) {
 	st.epoch++
+	base := e.w.BaseMem()
 	for k := range st.mem {
-		if !isLocal(k) {
-			delete(st.mem, k)
+		if isLocal(k) {
+			continue
 		}
+		// base memory: package-level tables and function variables that only
+		// their initialiser writes — nothing a callee or a loop does changes them
+		if bv, isBase := base[k]; isBase && reflect.DeepEqual(bv, st.mem[k]) {
+			continue
+		}
+		delete(st.mem, k)
 	}
 }
 
@@ -572,6 +583,13 @@ func (e *Engine) havocPointee(st *State, a AV, tag string) {
 // ---------- evaluation ----------
 
 func (e *Engine) paramAV(st *State, p *ssa.Parameter) AV {
+	// a parameter that every call site binds to one package-level map (a
+	// method on a named map type called only on that variable) is that map
+	for g, al := range regAliasMemo {
+		if al[p] {
+			return e.load(st, "G:"+globalName(g), p.Type())
+		}
+	}
 	return e.typed(st, p.Name(), p.Type())
 }
 
@@ -593,6 +611,9 @@ func (e *Engine) eval(st *State, v ssa.Value) AV {
 		st.env[v] = a
 		return a
 	case *ssa.FreeVar:
+		if a, ok := st.env[v]; ok {
+			return a
+		}
 		return AV{Kind: KSym, Sym: "freevar:" + x.Name()}
 	}
 	// a value not yet computed on this path (should not happen in SSA order)
@@ -758,7 +779,11 @@ func (e *Engine) exec(st *State, in ssa.Instruction) ([]*State, []Path) {
 		st.env[v] = AV{Kind: KSym, Sym: fmt.Sprintf("make#%s.%s@%s", in.Parent().Name(), v.Name(), st.inst()), NonNil: true, Src: v}
 	case *ssa.MakeClosure:
 		fn, _ := x.Fn.(*ssa.Function)
-		st.env[x] = AV{Kind: KFunc, Fn: fn, Src: x}
+		a := AV{Kind: KFunc, Fn: fn, Src: x}
+		for _, b := range x.Bindings {
+			a.Elems = append(a.Elems, e.eval(st, b)) // the captured variables (their addresses)
+		}
+		st.env[x] = a
 	case *ssa.Lookup:
 		m := e.eval(st, x.X)
 		k := e.eval(st, x.Index)
@@ -1426,6 +1451,7 @@ func (e *Engine) call(st *State, x *ssa.Call) ([]*State, []Path) {
 	var args []AV
 	var recv *AV
 	var callee *ssa.Function
+	var binds []AV // values bound to the callee's free variables (closures)
 	if c.IsInvoke() {
 		r := e.eval(st, c.Value)
 		recv = &r
@@ -1437,8 +1463,14 @@ func (e *Engine) call(st *State, x *ssa.Call) ([]*State, []Path) {
 		}
 	} else if f := c.StaticCallee(); f != nil {
 		callee = f
-	} else if fv := e.eval(st, c.Value); fv.Kind == KFunc && fv.Fn != nil && len(fv.Fn.FreeVars) == 0 {
+		if mc, ok := c.Value.(*ssa.MakeClosure); ok {
+			if fv := e.eval(st, mc); fv.Kind == KFunc {
+				binds = fv.Elems
+			}
+		}
+	} else if fv := e.eval(st, c.Value); fv.Kind == KFunc && fv.Fn != nil && len(fv.Fn.FreeVars) == len(fv.Elems) {
 		callee = fv.Fn
+		binds = fv.Elems
 	}
 	for _, a := range c.Args {
 		args = append(args, e.eval(st, a))
@@ -1450,10 +1482,13 @@ func (e *Engine) call(st *State, x *ssa.Call) ([]*State, []Path) {
 
 	// unwrap synthetic wrappers (e.g. (*T).M wrapper around (T).M)
 	inlinable := callee != nil && callee.Blocks != nil && e.w.InRepo(callee) && !e.NoInline[callee] &&
-		len(e.stack) < e.MaxDepth && !e.onStack(callee) && len(callee.FreeVars) == 0
+		len(e.stack) < e.MaxDepth && !e.onStack(callee) && len(callee.FreeVars) == len(binds)
 	if inlinable {
 		sub := st.clone()
 		sub.depth++
+		for i, fvv := range callee.FreeVars {
+			sub.env[fvv] = binds[i]
+		}
 		nEvents := len(sub.events)
 		sub.events = append(sub.events, Event{Kind: "enter", Callee: callee.String(), Method: callee.Name(), Args: args, Instr: x, Fn: x.Parent(), Static: callee, Depth: len(e.stack) - 1})
 		paths := e.Run(callee, sub, args)
